@@ -91,7 +91,9 @@ class C06(object):
             # same two work buffers (the same grain found again from another pair of peaks, a twin, something else)
             desc["getind_seq"] = {"buffers": rnd.choice(["ones", "garbage", "garbage", "none"]), "bseed": rnd.getrandbits(32),
                                   "trials": [{"which": rnd.choice(["same", "same", "perturbed", "twin", "other"]),
-                                              "tol": rnd.choice([None, None, 0.05, 0.25, 0.5]), "seed": rnd.getrandbits(32)}
+                                              "tol": rnd.choice([None, None, 0.05, 0.25, 0.5]), "seed": rnd.getrandbits(32),
+                                              # the drivers change the tolerance by plain attribute assignment between trials
+                                              "set_hkl_tol": rnd.choice([None, None, 0.02, 0.1, 0.3])}
                                              for _ in range(rnd.randint(2, 5))]}
         return desc
 
@@ -104,9 +106,11 @@ class C06(object):
             ubi_true = ubi_true @ (np.eye(3) + g.normal(0, 0.02, (3, 3)))
         sel = rnd.choice(["normal", "normal", "normal", "normal", "empty", "one", "two", "coplanar", "collinear", "gv_coplanar"])
         n = rnd.choice([3, 4, 6, 10, 40, 200] + ([2000, 20000] if (ctx.tier == "thorough" and rnd.random() < 0.2) else [1000]))
-        if rnd.random() < 0.04:
+        if rnd.random() < 0.06:
             n = rnd.choice([4095, 4096, 4097, 5000, 8193, 9000])   # beyond the chunk size the OpenMP loops of this file use
         hmax = rnd.choice([3, 8, 30, 1000]) if sel == "normal" else rnd.choice([3, 8])
+        if sel == "normal" and n > 4000 and rnd.random() < 0.5:
+            hmax = rnd.choice([600, 1000])    # long lists of high-index peaks: sums of h*h beyond 2^31
         hkl = g.integers(-hmax, hmax + 1, (n, 3)).astype(float)
         if sel == "empty":
             n = rnd.choice([0, 5])
@@ -142,8 +146,12 @@ class C06(object):
             labels = np.where(g.random(len(gv)) < rnd.choice([0.0, 0.3, 0.7, 1.0]), label, label + 1 + g.integers(0, 2, len(gv))).astype(np.int32)
             if sel in ("one", "two", "coplanar", "collinear", "empty", "gv_coplanar"):
                 labels[:] = label if sel != "empty" else label + 1
+        if sel == "normal" and kern != "refine_assigned" and len(gv) and rnd.random() < 0.12:
+            # peaks without a usable g-vector (NaN from a failed correction, inf from a division by zero): within no tolerance
+            for _ in range(rnd.randint(1, 3)):
+                gv[rnd.randrange(len(gv)), rnd.randrange(3) if rnd.random() < 0.7 else slice(None)] = rnd.choice([float("nan"), float("inf"), float("-inf")])
         gv = np.ascontiguousarray(gv)
-        dyadic = sel == "normal" and kern != "refine_assigned" and rnd.random() < 0.12
+        dyadic = sel == "normal" and np.isfinite(gv).all() and kern != "refine_assigned" and rnd.random() < 0.12
         if dyadic:
             # exact arithmetic: UBI = 2^k * signed permutation, g on a 1/64 grid, tol^2 dyadic.  Every product and sum
             # below is exact in binary floating point, so "error == tol^2" is a well defined input and the documented
@@ -232,7 +240,7 @@ class C06(object):
                         "detail": "%s counted %d peaks, definition gives %d (tol %g, %d peaks)" % (kern, got_n, nidx, tol, n)}
             elif kern != "refine_assigned" and n:
                 npy = int((self.indexing.calc_drlv2(ubi, gv) < tol * tol).sum())
-                margin = np.min(np.abs(ss - tol * tol)) if n else 1
+                margin = np.nanmin(np.abs(np.where(np.isfinite(ss), ss, np.inf) - tol * tol)) if n else 1
                 if npy != got_n and (margin > 1e-9 or desc["sel"] == "dyadic-exact-ties"):
                     viol = {"class": "count-differs-python", "key": kern + ":count-differs-python",
                             "detail": "kernel %d vs indexing.calc_drlv2 %d" % (got_n, npy)}
@@ -310,9 +318,11 @@ class C06(object):
                 U = np.diag(g.uniform(3, 12, 3)) @ rot(g).T
             U = np.ascontiguousarray(U)
             tol = tr["tol"]
-            teff = desc["tol"] if tol is None else tol
+            if tr.get("set_hkl_tol") is not None:
+                ix.hkl_tol = tr["set_hkl_tol"]
+            teff = float(ix.hkl_tol) if tol is None else tol
             ss = hkl_errors(U, gv)[2]
-            margin = np.abs(ss - teff * teff)
+            margin = np.abs(np.where(np.isfinite(ss), ss, np.inf) - teff * teff)
             if margin.min() <= 1e-12:
                 continue    # a peak exactly on the decision boundary of this trial: ties are not part of the property
             want = ss < teff * teff
